@@ -258,6 +258,70 @@ func readAllProbe(dir string, sn walpb.Snapshot, write bool) (r raOut) {
 	return raOut{err: c, sig: sig, text: c + "/" + hxn(meta) + "/" + sig}
 }
 
+// aftermathProbe: life goes on after the crash.  The directory holds the (possibly repaired) log as the write-mode open left it; it is
+// opened again for writing and `grow` bytes of further entries are saved and synced in 4 (long tails: 24) records; after every record the
+// directory is read as a restarting node would read it (so the log's end stops at many places inside whatever the interrupted write left
+// behind): every read must return what the first open returned followed by exactly the entries saved since; finally close + reopen.  Returns "ok", "skip:<why>" (the log could not be opened for writing: judged by the other verdicts) or a description.
+func aftermathProbe(dir string, sn walpb.Snapshot, grow int) (res string) {
+	defer func() {
+		if e := recover(); e != nil {
+			res = fmt.Sprintf("panic:%v", e)
+		}
+	}()
+	steps := 4
+	if grow > 64*512 {
+		steps = 24
+	}
+	per := grow/steps + 64
+	w, err := wal.Open(zap.NewNop(), dir, sn)
+	if err != nil {
+		return "skip:open-" + errClass(err)
+	}
+	closed := false
+	defer func() {
+		if !closed {
+			w.Close()
+		}
+	}()
+	_, st, ents, err := w.ReadAll()
+	if err != nil {
+		return "skip:" + errClass(err)
+	}
+	all := append([]raftpb.Entry(nil), ents...)
+	idx, term := sn.Index, sn.Term
+	if len(all) > 0 {
+		idx, term = all[len(all)-1].Index, all[len(all)-1].Term
+	}
+	if st.Term > term {
+		term = st.Term
+	}
+	for k := 0; k < steps; k++ {
+		idx++
+		data := make([]byte, per)
+		for i := range data {
+			data[i] = byte(0x41 + (i+k)%23)
+		}
+		e := raftpb.Entry{Term: term, Index: idx, Data: data}
+		st.Term, st.Commit = term, idx
+		if err := w.Save(st, []raftpb.Entry{e}); err != nil {
+			return fmt.Sprintf("step %d: save-%s", k, errClass(err))
+		}
+		all = append(all, e)
+		// what a restart at this moment would read (the save has been synced)
+		if got := readAllProbe(dir, sn, false); got.err != "ok" || got.sig != viewSig(st, all) {
+			return fmt.Sprintf("step %d: a reader after the synced save gets %s want=%s", k, got.text, viewSig(st, all))
+		}
+	}
+	closed = true
+	if err := w.Close(); err != nil {
+		return "close-" + errClass(err)
+	}
+	if got := readAllProbe(dir, sn, true); got.err != "ok" || got.sig != viewSig(st, all) {
+		return fmt.Sprintf("reopen for writing=%s want=%s", got.text, viewSig(st, all))
+	}
+	return "ok"
+}
+
 func verifyProbe(dir string, sn walpb.Snapshot) (c string, st string) {
 	defer func() {
 		if e := recover(); e != nil {
@@ -364,9 +428,10 @@ type caseOut struct {
 	text           string
 	rd, wr, rp     raOut
 	vfc, vfs, rpOK string
+	am             string // aftermath verdict ("" = not run)
 }
 
-func (sc *walScenario) probeCase(ds diskState, fi int, mut []byte, sn walpb.Snapshot) caseOut {
+func (sc *walScenario) probeCase(ds diskState, fi int, mut []byte, sn walpb.Snapshot, aftermath ...int) caseOut {
 	var co caseOut
 	last := len(ds.names) - 1
 	path := func(i int) string { return filepath.Join(sc.work, ds.names[i]) }
@@ -400,6 +465,24 @@ func (sc *walScenario) probeCase(ds diskState, fi int, mut []byte, sn walpb.Snap
 		co.rp = readAllProbe(sc.work, sn, true)
 		rp = fmt.Sprintf("%s:%d:%s", co.rpOK, fi2.Size(), co.rp.text)
 	}
+	if len(aftermath) > 0 && (co.wr.err == "ok" || (co.wr.err == "ueof" && co.rpOK == "1" && co.rp.err == "ok")) {
+		if co.wr.err == "ok" {
+			// the state the write-mode open left behind (tail cleared by the real code)
+			must(os.WriteFile(path(last), after, 0o600))
+		}
+		co.am = aftermathProbe(sc.work, sn, aftermath[0])
+		// drop whatever segments the aftermath added
+		des, _ := os.ReadDir(sc.work)
+		for _, de := range des {
+			known := false
+			for _, n := range ds.names {
+				known = known || n == de.Name()
+			}
+			if !known {
+				os.Remove(filepath.Join(sc.work, de.Name()))
+			}
+		}
+	}
 	cleanExtra(sc.work)
 	must(os.WriteFile(path(last), ds.files[last], 0o600))
 	if fi != last {
@@ -413,6 +496,8 @@ func (sc *walScenario) tornCases(out *bufio.Writer, maxEx, nRandom int, seed int
 	rng := rand.New(rand.NewSource(seed))
 	vt := sc.views(0)
 	zero := walpb.Snapshot{}
+	caseNo, aftermathOK := 0, 0
+	defer func() { fmt.Fprintf(out, "WA aftermath-ok=%d of %d torn cases\n", aftermathOK, caseNo) }()
 	for i := 0; i < len(sc.states); i++ {
 		if !sc.synced[i] {
 			continue
@@ -448,7 +533,19 @@ func (sc *walScenario) tornCases(out *bufio.Writer, maxEx, nRandom int, seed int
 				}
 			} else {
 				subsets = append(subsets, nil, sectors)
+				// one lost sector / one surviving sector, for every sector — or, for very long tails (> 64 sectors), for the first two,
+				// the last two and a seeded sample
+				pick := map[int]bool{}
+				if n > 64 {
+					pick[0], pick[1], pick[n-2], pick[n-1] = true, true, true, true
+					for len(pick) < 10 {
+						pick[rng.Intn(n)] = true
+					}
+				}
 				for b := 0; b < n; b++ {
+					if n > 64 && !pick[b] {
+						continue
+					}
 					subsets = append(subsets, []int{sectors[b]})
 					var ss []int
 					for c := 0; c < n; c++ {
@@ -481,7 +578,13 @@ func (sc *walScenario) tornCases(out *bufio.Writer, maxEx, nRandom int, seed int
 						}
 					}
 				}
-				co := sc.probeCase(sj, last, mut, zero)
+				var co caseOut
+				caseNo++
+				if n > 64 || caseNo%8 == 0 {
+					co = sc.probeCase(sj, last, mut, zero, Q-P+1024)
+				} else {
+					co = sc.probeCase(sj, last, mut, zero)
+				}
 				// the property's oracle: everything synced at i is there, then whole later records, nothing else;
 				// a torn final record is repairable
 				need := sc.nlog[i]
@@ -503,6 +606,12 @@ func (sc *walScenario) tornCases(out *bufio.Writer, maxEx, nRandom int, seed int
 				}
 				if co.vfc != "ok" || !vt.states[co.vfs] {
 					viol = append(viol, "verify:"+co.vfc+"/"+co.vfs)
+				}
+				if co.am != "" && co.am != "ok" && !strings.HasPrefix(co.am, "skip:") {
+					viol = append(viol, "aftermath:"+co.am)
+				}
+				if co.am == "ok" {
+					aftermathOK++
 				}
 				or := "ok"
 				if len(viol) > 0 {
